@@ -96,11 +96,11 @@ type Ctx struct {
 	Mod        string // module path prefix of the analysed module ("tkestack.io/galaxy/")
 	GuardSpecs []guardSpec
 	RepoDir    string
-	Pkgs    []*packages.Package
-	byPath  map[string]*packages.Package
-	Prog    *ssa.Program
-	Fset    *token.FileSet
-	SrcFns  []*ssa.Function // all functions with bodies in module packages (incl. anonymous)
+	Pkgs       []*packages.Package
+	byPath     map[string]*packages.Package
+	Prog       *ssa.Program
+	Fset       *token.FileSet
+	SrcFns     []*ssa.Function // all functions with bodies in module packages (incl. anonymous)
 
 	Obls     []*Obligation
 	ruleDocs map[string]string
@@ -323,7 +323,9 @@ func (c *Ctx) exempt(rule string, fn *ssa.Function, construct string, at ssa.Ins
 	return c.add(&Obligation{Rule: rule, Func: fnName(fn), Construct: construct, Pos: pos, Status: Exempt, Detail: reason})
 }
 
-func (c *Ctx) note(format string, a ...interface{}) { c.notes = append(c.notes, fmt.Sprintf(format, a...)) }
+func (c *Ctx) note(format string, a ...interface{}) {
+	c.notes = append(c.notes, fmt.Sprintf(format, a...))
+}
 
 // index of instruction within its block
 func (c *Ctx) instrIndex(in ssa.Instruction) int {
